@@ -179,8 +179,7 @@ func (c *Ctx) prelude() {
 		c.decl("(declare-sort F 0)")
 		c.decl("(declare-fun fbits (F) (_ BitVec 64))")
 		c.decl("(declare-fun fofbits ((_ BitVec 64)) F)")
-		c.decl("(assert (forall ((x F)) (! (= (fofbits (fbits x)) x) :pattern ((fbits x)))))")
-		c.decl("(assert (forall ((b (_ BitVec 64))) (! (= (fbits (fofbits b)) b) :pattern ((fofbits b)))))")
+		c.decl("@@FBITS@@")
 		c.decl("(declare-fun flit (Int) F)")
 	}
 	c.decl("(declare-sort Str 0)")
@@ -252,6 +251,9 @@ func (c *Ctx) hk(t types.Type) string {
 func baseSort(key string) string {
 	if strings.HasPrefix(key, "map!") {
 		return key
+	}
+	if strings.HasPrefix(key, "ghost!") {
+		return "Int"
 	}
 	if i := strings.Index(key, "@"); i >= 0 {
 		return key[:i]
@@ -831,6 +833,11 @@ func (o *Obligation) queryVariant(extra []string, variant int) string {
 			fmt.Sscanf(d, "@@REC:%d@@", &k)
 			d = c.recForms[k][variant]
 		}
+		if d == "@@FBITS@@" {
+			// bit-pattern axioms of uninterpreted floats: only when the query uses them
+			// (the bit-vector theory otherwise slows down purely structural goals)
+			d = "@@FBITS-LATER@@"
+		}
 		if d == "@@IX@@" {
 			// slice element addressing off+i: an uninterpreted symbol (robust quantifier
 			// patterns) in the proof-oriented variant, a macro in the model-oriented one
@@ -877,7 +884,17 @@ func (o *Obligation) queryVariant(extra []string, variant int) string {
 		b.WriteString("(assert (not " + o.goal + "))\n")
 	}
 	b.WriteString("(check-sat)\n(get-model)\n")
-	return b.String()
+	q := b.String()
+	if strings.Contains(q, "@@FBITS-LATER@@") {
+		ax := ""
+		body := strings.Replace(q, "(declare-fun fbits (F) (_ BitVec 64))", "", 1)
+		body = strings.Replace(body, "(declare-fun fofbits ((_ BitVec 64)) F)", "", 1)
+		if strings.Contains(body, "(fbits ") || strings.Contains(body, "(fofbits ") {
+			ax = "(assert (forall ((x F)) (! (= (fofbits (fbits x)) x) :pattern ((fbits x)))))\n(assert (forall ((b (_ BitVec 64))) (! (= (fbits (fofbits b)) b) :pattern ((fofbits b)))))"
+		}
+		q = strings.Replace(q, "@@FBITS-LATER@@", ax, 1)
+	}
+	return q
 }
 
 // heapDeclaredBefore: the heap constant an axiom talks about is declared in
